@@ -175,7 +175,7 @@ def r1(k: Kit) -> None:
     host_t = idx.fold_name(idx.module('connection'), 'CERT_TYPE_HOST')
     space = {'checking': [True, False], 'revoked': [False, True],
              'trusted': [False, True], 'owner': [False, True],
-             'valid': [True, False]}
+             'valid': [True, False], 'key_revoked': [False, True]}
     rows = {}
     bad = {}
     n = 0
@@ -193,7 +193,8 @@ def r1(k: Kit) -> None:
                 (frozenset([CA]) if s['trusted'] else frozenset())
                 if s['checking'] else None,
             'self._revoked_host_keys':
-                frozenset([CA]) if s['revoked'] else frozenset(),
+                frozenset(([CA] if s['revoked'] else []) +
+                          ([Obj('CERT.key')] if s['key_revoked'] else [])),
             'self._owner': Obj('OWNER'),
         }
         try:
@@ -213,6 +214,11 @@ def r1(k: Kit) -> None:
         row('revoked CA rejected', s['checking'] and s['revoked'],
             o.kind == 'raise' and o.value == 'ValueError',
             'a certificate signed by a revoked CA is accepted')
+        row('certificate for a revoked host key rejected',
+            s['checking'] and s['key_revoked'],
+            o.kind == 'raise' and o.value == 'ValueError',
+            'a certificate whose subject key is listed @revoked is accepted '
+            '(only the CA is looked up in the revoked set; ssh checks both)')
         row('untrusted CA rejected', s['checking'] and not s['revoked'] and
             not s['trusted'] and not s['owner'],
             o.kind == 'raise' and o.value == 'ValueError',
@@ -227,6 +233,7 @@ def r1(k: Kit) -> None:
             'an expired / wrong-principal certificate is accepted')
         row('valid certificate from trusted CA accepted', (
             not s['checking']) or (not s['revoked'] and
+                                   not s['key_revoked'] and
                                    (s['trusted'] or s['owner']) and
                                    s['valid']),
             o.kind == 'return' and o.value == Obj('CERT.key'),
@@ -274,7 +281,8 @@ def r3(k: Kit) -> None:
               key(mk, 'unpack order'), 'consumer unpacks in producer order',
               f'consumer unpacks as {tgt}', mk.loc(mk.node))
     g = k.cfg(mk)
-    for field, src in (('self._trusted_ca_keys', 'trusted_ca_keys'),
+    for field, src in (('self._trusted_host_keys', 'trusted_host_keys'),
+                       ('self._trusted_ca_keys', 'trusted_ca_keys'),
                        ('self._revoked_host_keys', 'revoked_host_keys')):
         st = k.stores_to(mk, field)
         okf = bool(st) and all(
@@ -283,15 +291,6 @@ def r3(k: Kit) -> None:
         rep.check(okf, 'C04.R3', key(mk, field),
                   f'{field} built from {src}',
                   f'{field} is not built from {src}', mk.loc(mk.node))
-    adds = [c for c in walk_shallow(mk.node)
-            if is_call(c, 'add', 'self._trusted_host_keys')]
-    loops = [x for x in walk_shallow(mk.node) if isinstance(x, ast.For) and
-             dotted(x.iter) == 'trusted_host_keys']
-    rep.check(bool(adds) and bool(loops), 'C04.R3',
-              key(mk, 'self._trusted_host_keys'),
-              'trusted host keys accumulated from the trusted list',
-              'trusted host keys not taken from the trusted list',
-              mk.loc(mk.node))
 
 
 def r4(k: Kit) -> None:
@@ -546,7 +545,8 @@ def run(idx, rep, tier):
         o.rule = 'C04.R3'
     # C04.R5: the trusted sets come from known_hosts matching; its
     # classification / negation / port rules are C17.R1-R2
-    from .c17 import r1 as c17r1, r2 as c17r2, wildcard_witnesses
+    from .c17 import (r1 as c17r1, r2 as c17r2, wildcard_witnesses,
+                      port_fallback)
     rep.rule('C04.R5', 'known_hosts pattern and classification rules '
              '(= C17.R1, C17.R2, wildcard witnesses of C17.R5): a negated '
              'element excludes the line, markers select the right trust '
@@ -555,5 +555,6 @@ def run(idx, rep, tier):
     c17r1(k)
     c17r2(k)
     wildcard_witnesses(k, 'C04.R5')
+    port_fallback(k, 'C04.R5')
     for o in rep.obligations[before:]:
         o.rule = 'C04.R5'
